@@ -21,6 +21,6 @@ def topoRD : Topo :=
 
 def facts : Facts :=
   { defaultChecker := firstChunkChecker, topoPlain := topoPlain, topoRD := topoRD,
-    maxStepPassed := true, defaultSlack := 10, modelPreAppends := true, toolsPreAppends := true }
+    maxStepPassed := true, maxStepExported := true, defaultSlack := 10, modelPreAppends := true, toolsPreAppends := true }
 
 end EinoV.Expected.C18
